@@ -27,8 +27,9 @@ class DriverError(Exception):
 class GatherImpl:
     """bounded_gather2 in one of its three modes."""
 
-    def __init__(self, utils, n, bound, mode):
+    def __init__(self, utils, n, bound, mode, wrapper=False):
         self.utils = utils
+        self.wrapper = wrapper   # call bounded_gather(parallelism=bound) instead of bounded_gather2 under a held permit
         self.n, self.bound, self.mode = n, bound, mode
         self.loop = VLoop()
         self.created = []      # every task in creation order: [main, task 1, ..., task n]
@@ -58,8 +59,32 @@ class GatherImpl:
 
     async def _main(self):
         self.began = True
-        await self.sema.acquire()   # the caller's own permit
         kw = {"return": {"return_exceptions": True}, "raise": {}, "raise_cancel": {"cancel_on_error": True}}[self.mode]
+        if self.wrapper:
+            impl = self
+            real = asyncio.Semaphore
+
+            class Recorded(real):
+                def __init__(s, value=1, **k):
+                    super().__init__(value, **k)
+                    impl.sema = s
+
+            mod_asyncio = self.utils.asyncio
+            try:
+                mod_asyncio.Semaphore = Recorded
+                coro = self.utils.bounded_gather(*[functools.partial(self.body, t) for t in range(1, self.n + 1)], parallelism=self.bound, **kw)
+            finally:
+                pass
+            try:
+                try:
+                    r = await coro
+                finally:
+                    mod_asyncio.Semaphore = real
+                self.result = ("returned", r)
+            except BaseException as e:  # noqa: B036
+                self.result = ("raised", e)
+            return
+        await self.sema.acquire()   # the caller's own permit
         try:
             r = await self.utils.bounded_gather2(self.sema, *[functools.partial(self.body, t) for t in range(1, self.n + 1)], **kw)
             self.result = ("returned", r)
